@@ -80,56 +80,56 @@ const xUnset = "<unset>"
 
 // the failure classes of C12 as concrete Jet expressions over the harness globals (see xBuild)
 var errExpr = map[string]string{
-	"identifier":             "nosuchvar",
-	"field":                  "gst.Nosuch",
-	"unexported":             "gst.hidden",
-	"method":                 "gst.NoMethod()",
-	"nilderef":               "gnilp.Name",
-	"nilderef-embedded":      "gholdernil.Deep", // a field promoted through an embedded pointer that is nil (after the same field was read through a non-nil one)
-	"mapfield-ok":            "gst.Nosuch.Deeper",
-	"mapchain-missing":       "gmapany.nokey.deeper", // only the LAST field of a chain may be a missing map key
-	"index-range":            "gsl[5]",
-	"index-len":              "gsl[3]",
-	"index-empty":            "gempty[0]",
-	"index-neg":              "gsl[-1]",
-	"index-str":              "gstr[7]",
-	"index-strlen":           "gstr[3]",
-	"index-kind":             `gsl["x"]`,
-	"index-nil":              "gsl[nil]",
-	"slice-bound":            "gsl[1:9]",
-	"slice-kind":             `gsl["a":2]`,
-	"operand-mul":            `gstr * 2`,
-	"operand-add":            `gst + 1`,
-	"operand-neg":            `-gstr`,
-	"operand-cmp":            `gstr < 1`,
-	"calltarget":             "gstr(1)",
-	"calltarget-nil":         "gnil(1)",
-	"calltarget-nil-noargs":  "gnil()",
-	"range-invalid":          "gnil",
-	"range-nilliteral":       "nil",
-	"argcount":               `lower("a", "b")`,
-	"argcount-jetfunc":       `len("a", "b")`,
-	"argtype":                `repeat("a", "b")`,
-	"argtype-iface":          `gstringer(1)`,          // a parameter of a non-empty interface type and an argument that does not implement it
-	"argtype-iface-variadic": `gstringers("-", 1)`,
-	"argtype-iface-piped":    `1 | gstringer`,
-	"arg-invalid":            `lower(gnil)`,
-	"underscore":             `lower(_)`,
-	"underscore-jetfunc":     `len(_)`,
-	"underscore-variadic":    `gjoin("-", "a", _)`,
-	"argcount-variadic":      `gjoin()`,
-	"func":                   "fail()",
-	"func-wrapsrt":           "gwrapsrt()",   // a function reporting an error that wraps a runtime error it caught itself
-	"argcount-jetfunc0":      "gnoargs(1)",   // a jet.Func that accepts no arguments (RequireNumOfArguments(name, 0, 0))
+	"identifier":              "nosuchvar",
+	"field":                   "gst.Nosuch",
+	"unexported":              "gst.hidden",
+	"method":                  "gst.NoMethod()",
+	"nilderef":                "gnilp.Name",
+	"nilderef-embedded":       "gholdernil.Deep", // a field promoted through an embedded pointer that is nil (after the same field was read through a non-nil one)
+	"mapfield-ok":             "gst.Nosuch.Deeper",
+	"mapchain-missing":        "gmapany.nokey.deeper", // only the LAST field of a chain may be a missing map key
+	"index-range":             "gsl[5]",
+	"index-len":               "gsl[3]",
+	"index-empty":             "gempty[0]",
+	"index-neg":               "gsl[-1]",
+	"index-str":               "gstr[7]",
+	"index-strlen":            "gstr[3]",
+	"index-kind":              `gsl["x"]`,
+	"index-nil":               "gsl[nil]",
+	"slice-bound":             "gsl[1:9]",
+	"slice-kind":              `gsl["a":2]`,
+	"operand-mul":             `gstr * 2`,
+	"operand-add":             `gst + 1`,
+	"operand-neg":             `-gstr`,
+	"operand-cmp":             `gstr < 1`,
+	"calltarget":              "gstr(1)",
+	"calltarget-nil":          "gnil(1)",
+	"calltarget-nil-noargs":   "gnil()",
+	"range-invalid":           "gnil",
+	"range-nilliteral":        "nil",
+	"argcount":                `lower("a", "b")`,
+	"argcount-jetfunc":        `len("a", "b")`,
+	"argtype":                 `repeat("a", "b")`,
+	"argtype-iface":           `gstringer(1)`, // a parameter of a non-empty interface type and an argument that does not implement it
+	"argtype-iface-variadic":  `gstringers("-", 1)`,
+	"argtype-iface-piped":     `1 | gstringer`,
+	"arg-invalid":             `lower(gnil)`,
+	"underscore":              `lower(_)`,
+	"underscore-jetfunc":      `len(_)`,
+	"underscore-variadic":     `gjoin("-", "a", _)`,
+	"argcount-variadic":       `gjoin()`,
+	"func":                    "fail()",
+	"func-wrapsrt":            "gwrapsrt()", // a function reporting an error that wraps a runtime error it caught itself
+	"argcount-jetfunc0":       "gnoargs(1)", // a jet.Func that accepts no arguments (RequireNumOfArguments(name, 0, 0))
 	"argcount-jetfunc0-piped": "1 | gnoargs",
-	"panic":                  "gpanic()", // a user function panicking with a value that is not an error: escapes Execute
-	"rterror":                "grterror()", // a user function hitting a Go runtime error (write to a nil map): escapes Execute too
-	"len-kind":               "len(5)",
-	"ints-range":             "ints(3, 1)",
-	"pipe-nonfunc":           `"a" | gstr`,
-	"argcount-piped-jetfunc": `1 | ints(2, 3)`,
-	"argcount-piped":         `"a" | lower("b")`,
-	"safewriter-notlast":     `"a" | raw | lower`,
+	"panic":                   "gpanic()",   // a user function panicking with a value that is not an error: escapes Execute
+	"rterror":                 "grterror()", // a user function hitting a Go runtime error (write to a nil map): escapes Execute too
+	"len-kind":                "len(5)",
+	"ints-range":              "ints(3, 1)",
+	"pipe-nonfunc":            `"a" | gstr`,
+	"argcount-piped-jetfunc":  `1 | ints(2, 3)`,
+	"argcount-piped":          `"a" | lower("b")`,
+	"safewriter-notlast":      `"a" | raw | lower`,
 }
 
 type gEmb struct{ Deep string }
@@ -894,11 +894,45 @@ func xCompare(w *xWorld, exp xResult, o xObs, esc func(string) string) (bool, st
 	return true, "", ""
 }
 
+// c09LateTemplate: include / includeIfExists / exec resolve the name against the template set as it is when the call is
+// made: a template that was missing in one execution and has been added since is found by the next one
+func c09LateTemplate() *Result {
+	loader := jet.NewInMemLoader()
+	loader.Set("/main.jet", `[{{ includeIfExists("part") }}]{{ try }}{{ include "part" }}{{ catch }}missing{{ end }}|{{ try }}{{ exec("part") }}found{{ catch }}missing{{ end }}`)
+	set := jet.NewSet(loader)
+	t, err := set.GetTemplate("/main.jet")
+	if err != nil {
+		return nil
+	}
+	run := func() string {
+		var b bytes.Buffer
+		if err := safeExecute(t, &b, nil, nil); err != nil {
+			return "ERROR: " + err.Error()
+		}
+		return b.String()
+	}
+	first := run()
+	loader.Set("/part.jet", "P")
+	second := run()
+	if first != "[]missing|missing" || second != "[P]P|found" {
+		return &Result{Sig: map[string]interface{}{"kind": "late-template", "tag": "", "run": 1, "errclass": ""}, Key: "history",
+			Observed: first + " then " + second, Expected: "[]missing|missing then [P]P|found",
+			Detail: fmt.Sprintf("with /part.jet missing the template rendered %q; after /part.jet was added to the loader it rendered %q (want %q then %q)", first, second, "[]missing|missing", "[P]P|found")}
+	}
+	return nil
+}
+
 func xReplayWith(tag string) func(i int, raw json.RawMessage) Result {
 	return func(i int, raw json.RawMessage) Result {
 		var v xVec
 		if err := json.Unmarshal(raw, &v); err != nil {
 			return Result{Detail: "bad vector: " + err.Error()}
+		}
+		if i == 0 && tag == "" && (strings.Contains(v.Tag, "|incif") || strings.Contains(v.Tag, "|include") || strings.Contains(v.Tag, "|exec")) && strings.Count(v.Tag, "|") == 3 {
+			// the families of Gen_C09 (tag: path|site|shape|returns)
+			if r := c09LateTemplate(); r != nil {
+				return *r
+			}
 		}
 		w, err := xBuild(&v.Case, bracketEscaper, true)
 		if err != nil {
